@@ -10,6 +10,7 @@ LEVEL = 'exploration'
 BUDGET = {'quick': (12000, 80.0), 'thorough': (300000, 1500.0)}
 RULE = ('seeded swarm generation of 2-4 real J1939-21 stacks, 1-8 messages on distinct (SA,DA) pairs submitted within 300 ms; '
         'a run is non-trivial when at least one multi-packet transfer put frames on the bus; distinct = distinct scenario JSON')
+FAULT_COUNTERS = {'application send_pgn from inside the stack\'s own transmission': 'reentrant_submissions', "zero-latency bus: reply handled re-entrantly inside the sender's send call (runs)": 'zero_latency_runs'}
 REQUIRED_PROBES = ['cmdt_msgs', 'bam_msgs', 'zero_latency_runs', 'len_mod7_zero']
 DLL = 'j1939-21'
 
@@ -59,6 +60,11 @@ def generate(rng, tier, i):
         msgs.append({'at_us': rng.randint(0, window_us), 'stack': names[si], 'ca': ci, 'prio': rng.randrange(8),
                      'dp': rng.choice([0, 0, 1]), 'pf': pf, 'ps': ps, 'len': n, 'fill': rng.randrange(1 << 16)})
     scn['msgs'] = sorted(msgs, key=lambda m: m['at_us'])
+    # some messages are submitted from inside the originating stack's own k-th transmission (an application thread running
+    # at that instant, or a backend that calls back into the application)
+    if len(scn['msgs']) > 1 and rng.random() < 0.3:
+        for m in rng.sample(scn['msgs'][1:], min(len(scn['msgs']) - 1, rng.randint(1, 2))):
+            m['on_tx'] = rng.choice([0, 1, 2, 3, 4, 6, 9, rng.randrange(0, 60)])
     return scn
 
 
@@ -68,7 +74,7 @@ def execute(scn, keep_log=False, hook=None):
     exp, extra, meta = common.Counter(), common.Counter(), {}
     viol = []
     stats = {'cmdt_msgs': 0, 'bam_msgs': 0, 'single_msgs': 0, 'zero_latency_runs': int(scn['latency']['kind'] == 'zero'),
-             'len_mod7_zero': 0, 'window_255': 0}
+             'len_mod7_zero': 0, 'window_255': 0, 'reentrant_submissions': 0}
     states = set()
     t0 = sim.now
     sim.run_for(0.02)       # let the job threads start and park
@@ -90,8 +96,28 @@ def execute(scn, keep_log=False, hook=None):
         extra.update(x)
 
     base = sim.now
+    txcount = {}
+    nest = [0]
+    pending_on_tx = [m for m in scn['msgs'] if m.get('on_tx') is not None]
+
+    def on_tx(fr):
+        k = txcount.get(fr.src, 0)
+        txcount[fr.src] = k + 1
+        if nest[0]:
+            return
+        for m in list(pending_on_tx):
+            if m['stack'] == fr.src and m['on_tx'] == k:
+                pending_on_tx.remove(m)
+                nest[0] += 1
+                try:
+                    stats['reentrant_submissions'] += 1
+                    submit(m)
+                finally:
+                    nest[0] -= 1
+    w.bus.observers.append(on_tx)
     for m in scn['msgs']:
-        sim.at(base + m['at_us'] * 1000, (lambda m=m: submit(m)), 'op')
+        if m.get('on_tx') is None:
+            sim.at(base + m['at_us'] * 1000, (lambda m=m: submit(m)), 'op')
     if hook:
         hook(w)
     longest = max([m['len'] for m in scn['msgs']] + [0])
@@ -143,6 +169,10 @@ def shrink(scn):
         if m['at_us']:
             c = copy.deepcopy(scn)
             c['msgs'][i]['at_us'] = 0
+            yield c
+        if m.get('on_tx') is not None:
+            c = copy.deepcopy(scn)
+            del c['msgs'][i]['on_tx']
             yield c
     for i, s in enumerate(scn['stacks']):
         if s['max_cmdt'] != 1:
